@@ -17,7 +17,9 @@ N = {"quick": 3500, "thorough": 115000}
 
 def new_run():
     return Run(PID, "exploration",
-               "cases = (schema spec with random parsing options, table, schema kind in "
+               "cases = (schema spec with random parsing options - incl. the forced combinations of C03: "
+               "parser column failing lazily, two errors of one component, MultiIndex(ordered=False) with "
+               "coercing levels on reordered level data -, table, schema kind in "
                "{DataFrameSchema, SeriesSchema, Column, Index, MultiIndex, polars DataFrameSchema "
                "on DataFrame / LazyFrame, polars Column}, lazy flag, input aliasing in {fresh, "
                "column-subset view, row-slice view, series taken from a frame}); one case in seven "
@@ -100,7 +102,8 @@ def classify_kind(what, kin, kout):
 
 
 def pandas_case(run, rng, i):
-    spec, table, opts, muts = P.gen_parse_case(rng, mutate_p=0.5)
+    spec, table, opts, muts = P.gen_parse_case(rng, mutate_p=0.5, parser_combo_p=0.04,
+                                               same_component_p=0.03, unordered_mi_p=0.05)
     try:
         data = B.pandas_table(spec, table)
         schema = B.pandas_schema(spec)
